@@ -9,7 +9,7 @@ CONSTANTS
   Amounts = {1, 3, 10, 25}
   Pairs = 1
   WdAmounts = {}
-  CfgIds = {1, 2, 3, 4, 5, 6, 7, 8}
+  CfgIds = {1, 2, 3, 4, 5, 6, 7, 8, 13, 14}
   ScenIds = {1, 2, 4}
   FixIds = {0}
   VaryPrices = FALSE
